@@ -271,3 +271,5 @@ impl Fnv {
 }
 pub use crate::decoding::verif_dec as dec;
 pub use crate::encoding::verif_enc as enc;
+pub use crate::fse::verif_fse as fse;
+pub use crate::huff0::verif_huf as huf;
